@@ -57,6 +57,13 @@ type Sched struct {
 	cids        [256]cidEnt
 	ncids       int
 	lockWait    [64]lockWaiter
+	// adoption: a goroutine the emulator started without announcing it (no task
+	// hook at its start) becomes a schedulable task for the time it stands at a
+	// hook site, so that code moved to a background goroutine is interleaved with
+	// everything else instead of running to completion inside one step
+	worldGid uint64
+	anonSeq  int
+	adopted  int
 }
 
 type lockWaiter struct {
@@ -165,6 +172,18 @@ func (s *Sched) park(want *sync.Mutex, site string) {
 	g := curGid()
 	s.mu.Lock()
 	i := s.find(g)
+	anon := false
+	if i < 0 && !s.passthrough && s.worldGid != 0 && g != s.worldGid {
+		for j := range s.tasks {
+			if !s.tasks[j].used {
+				s.anonSeq++
+				s.adopted++
+				s.tasks[j] = task{used: true, kind: "anon", id: 0, seq: s.anonSeq, gid: g}
+				i, anon = j, true
+				break
+			}
+		}
+	}
 	if i >= 0 && !s.passthrough {
 		t := &s.tasks[i]
 		t.want = want
@@ -181,17 +200,35 @@ func (s *Sched) park(want *sync.Mutex, site string) {
 		s.mu.Unlock()
 		<-w
 		if want == nil {
+			if anon {
+				s.mu.Lock()
+				s.tasks[i].used = false
+				s.mu.Unlock()
+			}
 			raceOn()
 			return
 		}
 		s.mu.Lock()
 		if s.ownerSlotLocked(want) == i {
 			// released by the scheduler, which recorded the ownership
+			if anon {
+				// the slot is given back; the mutex stays owned (by nobody the table knows)
+				for j := range s.owners {
+					if s.owners[j].mu == want {
+						s.owners[j].slot = -1
+					}
+				}
+				s.tasks[i].used = false
+			}
 			s.mu.Unlock()
 			raceOn()
 			return
 		}
 		// woken by releaseAll (teardown): take the shadow lock below
+		if anon {
+			s.tasks[i].used = false
+			i = -1
+		}
 	}
 	// Unregistered goroutine, or teardown (pass-through): nothing is parked,
 	// but a mutex is still acquired through the owner table first, waiting on
@@ -333,6 +370,7 @@ type cand struct {
 	site  string
 	want  *sync.Mutex
 	spins int
+	parks int
 }
 
 // snapshot copies out the parked tasks. enabled ones first is not implied;
@@ -351,7 +389,7 @@ func (s *Sched) snapshot(out *[maxTasks]cand, blocked *[maxTasks]bool) (n int, a
 		if !t.parked {
 			continue
 		}
-		out[n] = cand{slot: i, kind: t.kind, id: t.id, seq: t.seq, site: t.site, want: t.want, spins: t.spins}
+		out[n] = cand{slot: i, kind: t.kind, id: t.id, seq: t.seq, site: t.site, want: t.want, spins: t.spins, parks: t.parks}
 		blocked[n] = t.want != nil && s.ownedLocked(t.want)
 		n++
 	}
